@@ -323,7 +323,7 @@ func emitEth(o *hlib.Out, kind string, cfgs []cfgIn, h int64, t0, t1 *types.Tran
 	}
 	impl := safeCheck(t1, h)
 	o.Emit(kind, true,
-		hlib.App("CEth", coqDrivers(), hlib.Z(h), fmt.Sprintf("((%d)%%Z, %d%%N)", ethChain, ethPrec), coqTx(t0), mutTerm(t0, t1),
+		hlib.App("CEth", coqDrivers(), coqAddrIDs(), hlib.Z(h), fmt.Sprintf("((%d)%%Z, %d%%N)", ethChain, ethPrec), coqTx(t0), mutTerm(t0, t1),
 			hxc([]byte(safeExecAddr(t0.Execer))), hxc([]byte(safeExecAddr(t1.Execer))), hxc(note), ev, hlib.Bool(sameEth),
 			hlib.N(uint64(innerMsg)), hlib.N(uint64(innerEth)), hlib.N(uint64(impl))),
 		map[string]interface{}{"op": "eth", "cfgs": cfgs, "h": h, "t": toJ(t0), "t2": toJ(t1)},
